@@ -259,6 +259,10 @@ def run(ctx):
         scfg = fw.write_cfg(ctx.path("MC_SqrtAlg_%s.cfg" % nm), invariants=["SqrtOK"], constants={"W": w, "HalfLens": hl, "Stride": st})
         ctx.mc("mc-sqrtalg-" + nm, SPEC, "SqrtAlg.tla", scfg, workers=4, timeout=2400)
     ctx.scope["sqrt_alg_scopes"] = [list(x) for x in sq]
+    # integer logarithms: the trial-multiplication repair of a floating-point underestimate, for every admissible estimate
+    for nm, w, mt in [("w3", 3, ctx.pick(1400, 4095))] + ([] if ctx.quick else [("w4", 4, 3000)]):
+        icfg = fw.write_cfg(ctx.path("MC_IlogAlg_%s.cfg" % nm), invariants=["IlogOK"], constants={"W": w, "MaxTarget": mt})
+        ctx.mc("mc-ilog-" + nm, SPEC, "IlogAlg.tla", icfg, workers=4, timeout=2400)
     # the Lehmer gcd loop at word level: single-word and double-word guesses, signed double-word step, every pair in scope
     lg = [("w3", 3, 1023, 1, "FALSE"), ("w3d", 3, 1023, 1, "TRUE")] + ([] if ctx.quick else [("w4", 4, 4095, 7, "FALSE"), ("w4d", 4, 4095, 7, "TRUE"), ("w3x", 3, 4095, 5, "TRUE")])
     for nm, w, xmax, ys, dw in lg:
